@@ -59,6 +59,9 @@ func runNodeCase(cs *hx.Case, fs *hx.FindingSet, cfg genCfg, after func(nm *hx.N
 	rt := cs.RT()
 	opts := hx.DefaultOpts()
 	opts.Window = rapid.SampledFrom(cfg.Windows).Draw(rt, "window")
+	if cfg.BigAmounts && rapid.IntRange(0, 2).Draw(rt, "bigquota") > 0 {
+		opts.QuotaStr = rapid.SampledFrom([]string{"18446744073709551616", "1180591620717411303424001", "340282366920938463463374607431768211455"}).Draw(rt, "quota")
+	}
 	cs.Op(map[string]interface{}{"opts": opts})
 	nm, err := hx.NewNodeMachine(opts, fs)
 	if err != nil {
@@ -202,6 +205,7 @@ func TestC01(t *testing.T) {
 	resolveSharedFindings(fs, c)
 	regressFixed(t, c, fs, "C01")
 	cfg := defaultGenCfg()
+	cfg.WrongFrozenPct = 6
 	c.Check(t, "node-machine", hx.N(600, 4000), func(cs *hx.Case) {
 		runNodeCase(cs, fs, cfg, func(nm *hx.NodeMachine, op hx.NOp, i int) error {
 			if (op.Op == "walk" || op.Op == "sync") && nm.LastOutcome != "skipped" && nm.LastUndo > 0 {
